@@ -155,4 +155,172 @@ theorem decodeData_roundtrip (t : Template) (vals : List VVal) (rest : Bytes) (c
   rw [hne]
   simp [Wire.Ipfix.expectedRecord, Wire.expectedRecord]
 
+/-! ## Level 2: the record loop and a whole data set -/
+
+/-- octets of a list of records -/
+def body (t : Template) (records : List (List VVal)) : Bytes :=
+  (records.map (Wire.Ipfix.encodeRecord t)).flatten
+
+theorem body_nil (t : Template) : body t [] = [] := rfl
+theorem body_cons (t : Template) (x : List VVal) (xs : List (List VVal)) :
+    body t (x :: xs) = Wire.Ipfix.encodeRecord t x ++ body t xs := by
+  simp [body]
+
+theorem wfRecord_big {t : Template} {x : List VVal} (h : Wire.Ipfix.wfRecord t x = true) :
+    4 < (Wire.Ipfix.encodeRecord t x).length := by
+  simp only [Wire.Ipfix.wfRecord, Bool.and_eq_true, decide_eq_true_eq] at h
+  exact h.2
+
+/-- **C03 level 2a (record loop)**: over `records ++ pad ++ rest`, with the set header announcing
+exactly `records ++ pad` (16-bit arithmetic: the set length is below 65536), the loop yields all records
+in order, stops in front of the padding, reports no error and does not return directly -/
+theorem setLoop_data (ctx : Ctx) (hsid : 255 < ctx.setId) (hlen16 : ctx.len < 65536) :
+    ∀ (records : List (List VVal)) (pad rest : Bytes) (fuel : Nat) (st : St),
+      (∀ x ∈ records, Wire.Ipfix.wfRecord ctx.tr x = true) →
+      pad.length ≤ 4 →
+      st.r.rem = body ctx.tr records ++ (pad ++ rest) →
+      ctx.start ≤ st.r.cnt →
+      (st.r.cnt - ctx.start) + ((body ctx.tr records).length + pad.length) = ctx.len →
+      records.length < fuel →
+      setLoop ctx fuel st =
+        ({ st with r := ⟨pad ++ rest, st.r.cnt + (body ctx.tr records).length⟩,
+                   recs := st.recs ++ records.map (Wire.Ipfix.expectedRecord ctx.tr) }, none, false) := by
+  intro records
+  induction records with
+  | nil =>
+    intro pad rest fuel st _ hpad hrem hstart hlen hfuel
+    cases fuel with
+    | zero => omega
+    | succ n =>
+      simp only [setLoop]
+      have hc : contCond ctx st.r = false := by
+        simp only [contCond, consumed16, Bool.and_eq_false_iff, decide_eq_false_iff_not]
+        right
+        rw [body_nil] at hlen; simp only [List.length_nil] at hlen
+        apply decide_eq_false; omega
+      rw [hc]
+      simp only [body_nil, List.nil_append, List.length_nil, Nat.add_zero, List.map_nil,
+        List.append_nil] at hrem ⊢
+      cases st with
+      | mk r cache rs =>
+        cases r with
+        | mk rem cnt => simp at hrem ⊢; exact hrem
+  | cons x xs ih =>
+    intro pad rest fuel st hm hpad hrem hstart hlen hfuel
+    cases fuel with
+    | zero => simp at hfuel
+    | succ n =>
+      have hmx : Wire.Ipfix.wfRecord ctx.tr x = true := hm x (by simp)
+      have hxlen := wfRecord_big hmx
+      simp only [setLoop]
+      rw [body_cons] at hrem hlen
+      simp only [List.length_append] at hlen
+      have hc : contCond ctx st.r = true := by
+        simp only [contCond, consumed16, Bool.and_eq_true, decide_eq_true_eq]
+        refine ⟨⟨?_, ?_⟩, ?_⟩
+        · apply decide_eq_true; omega
+        · rw [hrem]; simp only [List.length_append]; omega
+        · apply decide_eq_true; omega
+      rw [if_pos hc]
+      have hn23 : ¬ (ctx.setId = 2 ∨ ctx.setId = 3) := by omega
+      have hnres : ¬ (4 ≤ ctx.setId ∧ ctx.setId ≤ 255) := by omega
+      have hn0 : ¬ (ctx.setId = 0) := by omega
+      rw [if_neg hn23, if_neg hnres, if_neg hn0]
+      have hrem' : st.r = ⟨Wire.Ipfix.encodeRecord ctx.tr x ++ (body ctx.tr xs ++ (pad ++ rest)), st.r.cnt⟩ := by
+        cases hst : st.r with
+        | mk rem cnt =>
+          rw [hst] at hrem
+          simp only at hrem ⊢
+          rw [hrem, List.append_assoc]
+      rw [hrem', decodeData_roundtrip ctx.tr x _ _ hmx]
+      simp only
+      have hne : ¬ (st.r.cnt + (Wire.Ipfix.encodeRecord ctx.tr x).length = st.r.cnt) := by omega
+      rw [if_neg hne]
+      have := ih pad rest n
+        { st with r := ⟨body ctx.tr xs ++ (pad ++ rest), st.r.cnt + (Wire.Ipfix.encodeRecord ctx.tr x).length⟩,
+                  recs := st.recs ++ [Wire.Ipfix.expectedRecord ctx.tr x] }
+        (fun r hr => hm r (by simp [hr])) hpad rfl
+        (by show ctx.start ≤ st.r.cnt + _; omega)
+        (by show st.r.cnt + _ - ctx.start + _ = ctx.len; omega)
+        (by simp only [List.length_cons] at hfuel; omega)
+      rw [this]
+      simp only [body_cons, List.length_append, List.map_cons, List.append_assoc,
+        List.singleton_append, Nat.add_assoc]
+
+/-- the leftover skip eats exactly the padding the loop stopped in front of -/
+theorem skipRest_pad (ctx : Ctx) (st : St) (pad rest : Bytes) (c : Nat)
+    (hr : st.r = ⟨pad ++ rest, c⟩) (hlen16 : ctx.len < 65536) (_hstart : ctx.start ≤ c)
+    (hleft : (c - ctx.start) + pad.length = ctx.len) :
+    skipRest ctx st none = ({ st with r := ⟨rest, c + pad.length⟩ }, none) := by
+  have hl : (ctx.len + 65536 - consumed16 ctx st.r) % 65536 = pad.length := by
+    simp only [consumed16, hr]; omega
+  simp only [skipRest, hl]
+  by_cases hp : pad.length = 0
+  · have : pad = [] := List.eq_nil_of_length_eq_zero hp
+    subst this
+    simp only [List.length_nil, Nat.lt_irrefl, if_false, Nat.add_zero]
+    cases st with
+    | mk r cache rs => simp at hr ⊢; exact hr
+  · rw [if_pos (by omega), hr, readN_append]
+
+theorem body_length_ge (t : Template) :
+    ∀ (records : List (List VVal)), (∀ x ∈ records, Wire.Ipfix.wfRecord t x = true) →
+      records.length ≤ (body t records).length := by
+  intro records
+  induction records with
+  | nil => intro _; simp
+  | cons x xs ih =>
+    intro h
+    have := ih (fun r hr => h r (by simp [hr]))
+    have hx := wfRecord_big (h x (by simp))
+    simp only [body_cons, List.length_append, List.length_cons]
+    omega
+
+theorem encodeSet_length (id : Nat) (b pad : Bytes) :
+    (Wire.Ipfix.encodeSet id b pad).length = 4 + (b.length + pad.length) := by
+  simp [Wire.Ipfix.encodeSet, be16_length]; omega
+
+/-- reading the 4-octet set header -/
+theorem decodeSet_header (addr : Bytes) (fuel id : Nat) (b pad rest : Bytes) (c : Nat)
+    (cache : Cache) (recs : List Record) (hid : id < 65536)
+    (hlen : 4 + (b ++ pad).length < 65536) :
+    decodeSet addr fuel ⟨⟨Wire.Ipfix.encodeSet id b pad ++ rest, c⟩, cache, recs⟩ =
+      setBody addr id (4 + (b ++ pad).length) c fuel ⟨⟨b ++ (pad ++ rest), c + 4⟩, cache, recs⟩ := by
+  simp only [decodeSet, Wire.Ipfix.encodeSet, List.append_assoc]
+  rw [rU16_be16 id hid]
+  simp only
+  rw [rU16_be16 _ (by simpa using hlen)]
+  simp only
+  rw [if_neg (by omega)]
+
+/-- **C03 level 2b (data set)**: `decodeSet` consumes the whole encoded data set (padding included),
+appends exactly the expected records, leaves the cache unchanged, reports no error -/
+theorem decodeSet_data (addr : Bytes) (t : Template) (records : List (List VVal)) (pad rest : Bytes)
+    (c fuel : Nat) (cache : Cache) (recs : List Record)
+    (hw : Wire.Ipfix.wfSet addr cache (.data t records pad) = true) (hfuel : records.length < fuel) :
+    decodeSet addr fuel ⟨⟨Wire.Ipfix.encodeDataSet t records pad ++ rest, c⟩, cache, recs⟩ =
+      (⟨⟨rest, c + (Wire.Ipfix.encodeDataSet t records pad).length⟩, cache,
+        recs ++ records.map (Wire.Ipfix.expectedRecord t)⟩, none) := by
+  simp only [Wire.Ipfix.wfSet, Wire.Ipfix.wfSetLen, Bool.and_eq_true, decide_eq_true_eq, beq_iff_eq,
+    List.all_eq_true] at hw
+  obtain ⟨⟨⟨⟨⟨h255, h64k⟩, hlk⟩, _⟩, hrec⟩, hpad, hlen⟩ := hw
+  unfold Wire.Ipfix.encodeDataSet
+  rw [decodeSet_header addr fuel t.tid _ pad rest c cache recs h64k hlen]
+  simp only [setBody, lookupTpl, if_pos h255, hlk, Option.getD_some]
+  have hb : (records.map (Wire.Ipfix.encodeRecord t)).flatten = body t records := rfl
+  rw [hb] at hlen ⊢
+  simp only [List.length_append] at hlen
+  have hloop := setLoop_data ⟨addr, t.tid, 4 + (body t records ++ pad).length, c, t⟩ h255
+    (by simp only [List.length_append]; omega)
+    records pad rest fuel ⟨⟨body t records ++ (pad ++ rest), c + 4⟩, cache, recs⟩
+    hrec hpad rfl (by simp only; omega) (by simp only [List.length_append]; omega) hfuel
+  rw [hloop]
+  simp only [Bool.false_eq_true, if_false]
+  rw [skipRest_pad _ _ pad rest (c + 4 + (body t records).length) rfl
+    (by simp only [List.length_append]; omega) (by simp only; omega)
+    (by simp only [List.length_append]; omega)]
+  simp only [encodeSet_length]
+  have e : c + 4 + (body t records).length + pad.length = c + (4 + ((body t records).length + pad.length)) := by omega
+  rw [e]
+
 end Vflow.Ipfix
